@@ -17,6 +17,34 @@ CHECKS = {
             'engine; shares in [0,1] need run-time signs and are not claimed.',
             'ownership scan + value-graph (rational normal form) invariant proof over the SpectralInformation API',
             'DESIGN.md 4 C01'),
+    'C02': ('other',
+            'Per element class, the set of SpectralInformation mutators its __call__ can reach (effect sets over the '
+            'whole-package call graph): passive elements only attenuate, a plain fibre never adds ASE or gain, an '
+            'amplifier never adds NLI, solvers mutate nothing; value-graph identities show which ratio each noise '
+            'update moves and that it is non-increasing for a non-negative injected term; a sign domain shows amplifier '
+            'ASE > 0 and GN-analytic eta >= 0 for every dispersion sign and channel layout.',
+            'Sign of Raman spontaneous-scattering ASE and of the GGN integrals is not decided; physical positivity of '
+            'frequency, baud rate, alpha is assumed; relies on C01.',
+            'effect-set (call-graph reachability) analysis + value-graph identities + sign abstract domain',
+            'DESIGN.md 4 C02'),
+    'C03': ('other',
+            'Role-aware value graph (numpy broadcasting roles cut/pump) of _psi, _gn_analytic and the analytic arm of '
+            'compute_nli equals the published GN closed form incl. exact SPM/XPM weights; NLI is sum_p P_c P_p^2 eta, '
+            'homogeneous of degree 3 in power with eta independent of power; fibre alpha/beta2/gamma definitions; all '
+            'per-channel arrays permuted by one argsort. Scaling laws are theorems of that formula.',
+            'GGN methods (numerical integration) and numerical agreement with stored data are not decided; real '
+            'arithmetic; one alpha (role erased) as in the paper.',
+            'translation-validation style value graph with rational normal form and broadcasting roles + degree domain',
+            'DESIGN.md 4 C03'),
+    'C06': ('other',
+            'Value graph of Roadm.propagate in the dB domain proves pch_out = min(target + offset, input - maxloss) '
+            'for the egress degree and that both attenuations are >= 0 by form; policy<->carrier-width pairing and '
+            'per-degree precedence at all resolution sites; one policy vocabulary at 5 sites and rejection of two '
+            'policies; design-time population of per-degree tables; presence of numeric targets tested with is-not-None; '
+            'the crossing keeps no state between calls.',
+            'Impairment profile values and consistency of per-degree dicts with the topology are data and not decided.',
+            'value graph (dB/linear lemmas, min/max via |x|) + decision-list/table agreement + persistent-state dataflow',
+            'DESIGN.md 4 C06'),
     'C14': ('other',
             'Decides the structural obligations behind "no double booking / blocked request changes nothing": the '
             'scratch OMS never aliases a real bitmap (list-freshness dataflow on every path), spectrum is committed '
